@@ -250,6 +250,28 @@ class C07(vlib.Check):
             for name, got in (("Fingerprinter(bits=b)", small), ("get_fingerprint_at_level(bits=b)", req)):
                 if dump_fp(got) != want:
                     return {"key": "fprinter-route-differs", "what": "%s differs from folding the 2^32-bit fingerprint to %d" % (name, case["bits"])}
+            # a fingerprinter built for b bits asked, per call, for another length b2 (smaller, equal, larger, up to 2^32): the answer
+            # is the 2^32-bit fingerprint folded to b2 - the constructor's length is only the default
+            from harness import molgen as MG
+            mol = MG.load_ref(case["ref"])
+            conf = mol.GetConformer(case["conf"])
+            sm = MG.make_fprinter(dict(case["opts"], bits=case["bits"]))
+            sm.run(conf, mol)
+            for b2 in (1, 64, 1024, 4096, 2 ** 20, 2 ** 32):
+                try:
+                    got = dump_fp(sm.get_fingerprint_at_level(-1, bits=b2))
+                except Exception as e:  # noqa: BLE001
+                    return {"key": "fprinter-route-raises:" + type(e).__name__, "what": "Fingerprinter(bits=%d).get_fingerprint_at_level(bits=%d) raised %r" % (case["bits"], b2, e)}
+                if got != dump_fp(big.fold(b2)):
+                    return {"key": "fprinter-route-differs:per-call-bits", "what": "Fingerprinter(bits=%d) asked per call for %d bits returns %d bits / other positions than the 2^32-bit fingerprint folded to %d" % (
+                        case["bits"], b2, got["bits"], b2)}
+            # ... and a length that is not 2^32 divided by a power of two is refused on this route too
+            for bad in (2 ** 33, 3):
+                try:
+                    sm.get_fingerprint_at_level(-1, bits=bad)
+                    return {"key": "fprinter-route-accepts-bad-length", "what": "get_fingerprint_at_level(bits=%d) was accepted" % bad}
+                except Exception:  # noqa: BLE001
+                    pass
             return None
         if case["t"] == "dbfold":
             from harness.dbgen import dump_db
